@@ -515,3 +515,51 @@ func c11Nil(c *core.Ctx, r *core.Reporter) {
 	}
 	_ = types.Typ
 }
+
+func init() {
+	register(&core.Rule{Name: "C11/DOM-identity", Props: []string{"C11"}, Min: 1,
+		Doc: "typeMapReducer consults the type map only to compare the mapped type with the one at hand", Run: c11Identity})
+}
+
+// c11Identity: the reducer is where "every named type is unique" is enforced: when a name is already mapped, the mapped
+// type must be the very type being reduced. A lookup whose value is ignored (presence test by name) treats a different
+// type with the same name as already done: the duplicate is accepted silently and its own types never enter the map.
+func c11Identity(c *core.Ctx, r *core.Reporter) {
+	fn := c.Func("", "typeMapReducer")
+	if fn == nil {
+		r.Unknown("typeMapReducer/lookups", token.NoPos, "not found")
+		return
+	}
+	n := 0
+	core.Instrs(fn, func(in ssa.Instruction) {
+		lk, ok := in.(*ssa.Lookup)
+		if !ok || core.TypeName(lk.X.Type()) != "TypeMap" {
+			return
+		}
+		n++
+		key := fmt.Sprintf("typeMapReducer/lookup#%d", n)
+		compared := false
+		vals := []ssa.Value{}
+		if lk.CommaOk {
+			for _, ref := range *lk.Referrers() {
+				if ex, ok := ref.(*ssa.Extract); ok && ex.Index == 0 {
+					vals = append(vals, ex)
+				}
+			}
+		} else {
+			vals = append(vals, lk)
+		}
+		for _, v := range vals {
+			for _, ref := range *v.Referrers() {
+				if bo, ok := ref.(*ssa.BinOp); ok && (bo.Op == token.EQL || bo.Op == token.NEQ) && !core.IsNilConst(bo.X) && !core.IsNilConst(bo.Y) {
+					compared = true
+				}
+			}
+		}
+		r.Check(compared, key, lk.Pos(), "the mapped type is compared with the type being reduced",
+			"typeMapReducer looks a name up in the type map and ignores the mapped type (a presence test by name): a different type that has the same name is taken for already reduced, so the duplicate name is accepted without error and the types only it refers to never enter the type map")
+	})
+	if n == 0 {
+		r.Bad("typeMapReducer/lookups", fn.Pos(), "typeMapReducer never consults the type map: no uniqueness check of named types")
+	}
+}
